@@ -1,3 +1,4 @@
+pub mod pgn;
 pub mod rules;
 pub mod san;
 pub mod solver;
